@@ -324,15 +324,17 @@ func (r *vRun) mutate(m *vMsg, b []byte, byMsg map[*vMsg][][]byte, depth int) ([
 			if f == nil || f.card != vcPacked || p.wt != 2 {
 				continue
 			}
+			// (the input may itself be the product of an earlier rewrite or a corruption: the payload need
+			// not be a whole number of elements — then this operator does not apply)
 			pay := p.raw[p.payStart:]
 			var nb []byte
 			wt := map[string]uint64{"varint": 0, "zigzag32": 0, "fixed64": 1, "fixed32": 5}[f.wire]
+			whole := true
 			for len(pay) > 0 {
-				nb = vAppendVarint(nb, uint64(f.num)<<3|wt)
 				n := 0
 				switch wt {
 				case 0:
-					for pay[n] >= 0x80 {
+					for n < len(pay) && pay[n] >= 0x80 {
 						n++
 					}
 					n++
@@ -341,8 +343,16 @@ func (r *vRun) mutate(m *vMsg, b []byte, byMsg map[*vMsg][][]byte, depth int) ([
 				default:
 					n = 4
 				}
+				if n > len(pay) {
+					whole = false
+					break
+				}
+				nb = vAppendVarint(nb, uint64(f.num)<<3|wt)
 				nb = append(nb, pay[:n]...)
 				pay = pay[n:]
+			}
+			if !whole {
+				continue
 			}
 			ps[i].raw = nb
 			return vJoin(ps), "unpack-packed"
@@ -425,20 +435,20 @@ func (r *vRun) decodeCase(kind int, m *vMsg, b []byte, what string, unmarshal fu
 	var e1, e2, e3 error
 	var sz int
 	if !vGuard(r.out, "re-encode("+what+")", term, func() {
-		b1, e1 = pb.Marshal()
-		sz = pb.Size()
+		b1, e1 = vMarshal(pb)
+		sz = vSize(pb)
 		if again != nil {
 			var v2 reflect.Value
 			v2, e2 = again(b1)
 			if e2 == nil {
-				b2, e3 = v2.Addr().Interface().(vPB).Marshal()
+				b2, e3 = vMarshal(v2.Addr().Interface().(vPB))
 			}
 			return
 		}
 		p2 := reflect.New(m.typ)
-		e2 = p2.Interface().(vPB).Unmarshal(b1)
+		e2 = vUnmarshal(p2.Interface().(vPB), b1)
 		if e2 == nil {
-			b2, e3 = p2.Interface().(vPB).Marshal()
+			b2, e3 = vMarshal(p2.Interface().(vPB))
 		}
 	}) {
 		return
@@ -489,7 +499,7 @@ func (r *vRun) byteCases(pool [][2]interface{}) {
 			if i%2 == 0 {
 				r.s.legacySender(m, v) // what the migration exists for: only the deprecated field is used
 			}
-			b, err := v.Addr().Interface().(vPB).Marshal()
+			b, err := vMarshal(v.Addr().Interface().(vPB))
 			if err != nil {
 				continue
 			}
